@@ -3,6 +3,7 @@ import GrinVerif.Model.Crash
 import GrinVerif.Model.CrashCompact
 import GrinVerif.Model.CrashRecov
 import GrinVerif.Model.CrashZip
+import GrinVerif.Model.CrashKernel
 /-! Driver glue for the `crash` domain (C09): the real step labels of a scenario are interpreted
 as model steps, the durable state at each crash point is computed by the model and `recover`
 predicts how the node reopens. -/
@@ -216,16 +217,36 @@ def predictAt (st : St) (sc : Scn) (n : Nat) : Option String := do
   let d ← stateAt st sc n
   pure (showRec (recover bcAT st.tbl d))
 
+/-- kernel size / data file at the `n`-th crash point (`Model/CrashKernel.lean`); scenarios with one
+acceptance and the head reset; elsewhere the files are taken to hold what the kernel data file holds -/
+def kAt (st : St) (sc : Scn) (n : Nat) : Option KFiles := do
+  let oldPath ← pathOf st.tbl (st.tbl.length + 1) sc.oldHead []
+  let input ← sc.inputs.getLast?
+  let newPath ← pathOf st.tbl (st.tbl.length + 1) input []
+  let single := sc.kind == "reset" || !(sc.kind == "orphans" || sc.oldHHead != sc.oldHead)
+  if !single then none else
+  let t : Target := { newPath, forkLen := if sc.kind == "reset" then newPath.length else commonPrefixLen oldPath newPath,
+                      movesHHead := false, movesHead := false }
+  pure ((sc.labels.take n).foldl (fun k l => match kstepOfLabel l with
+    | some s => applyKStep t k s
+    | none => k) (kOfIds (oldPath.map (·.id))))
+
 /-- a second process death at the `m`-th crash point of the restart that follows the `n`-th crash
-point: the model's recovery lists its durable writes, the real labels are walked along them -/
+point: the model's recovery lists its durable writes, the real labels are walked along them; the
+kernel size / data files are followed through both restarts (a rewind beyond the end of the size
+file empties the data file: the next start fails in `TxHashSet::open`) -/
 def predictSecond (st : St) (sc : Scn) (n m : Nat) : Option String := do
   let d ← stateAt st sc n
   let rl ← (sc.rlabels.find? (·.1 == n)).map (·.2)
   let ins := (recoverS bcAT st.tbl d).1
   let commits := (rl.filter (·.startsWith "lmdb:after-commit")).length
+  let k1 := kOpen ((kAt st sc n).getD (kOfIds d.kerData))
   match walkLabels (rl.take m) commits ins d with
   | none => pure "recovery-steps-differ-from-model"
-  | some d2 => pure (showRec (recover bcAT st.tbl d2))
+  | some d2 =>
+    let k2 := walkK (rl.take m) ins k1
+    if !kReadable d2.kerHash.length (kOpen k2) then pure "open=err:TxHashSetErr"
+    else pure (showRec (recover bcAT st.tbl d2))
 
 /-! ### state-sync install (`Model/CrashZip.lean`) -/
 
@@ -243,12 +264,15 @@ def predictZip (st : St) (sc : Scn) (n : Nat) : Option String := do
   let idx := (sc.labels.zipIdx.filter (fun p => p.1.startsWith "lmdb:after-commit(after:kernel/pmmr_prun.bin)")).getLast?.map (·.2 + 1)
   let ic := idx.getD (sc.labels.length + 1)
   let lab := (sc.labels[n - 1]?).getD ""
+  -- real crash points inside txhashset_replace (after the removal of the old directory, after the
+  -- rename of the sandbox); the half-removed directory is an emulated state
+  let ir := ((sc.labels.zipIdx.filter (fun p => p.1.startsWith "txhashset_replace:after-rename")).head?.map (·.2 + 1)).getD (ic + 1)
+  let icl := ((sc.labels.zipIdx.filter (fun p => p.1.startsWith "txhashset_replace:after-clean")).head?.map (·.2 + 1)).getD (ic + 1)
   let steps : List ZStep :=
     if lab.startsWith "emu.replace:clean-partial" then [.commit, .cleanPartial]
-    else if lab.startsWith "emu.replace:after-clean" then [.commit, .clean]
-    else if lab.startsWith "emu.replace:after-rename" then [.commit, .clean, .rename]
     else if n < ic then []
-    else if n == ic then [.commit]
+    else if n < icl then [.commit]
+    else if n < ir then [.commit, .clean]
     else [.commit, .clean, .rename]
   pure (showRecZ (recoverZ bcAT st.tbl (steps.foldl (applyZStep P) d0)))
 
